@@ -3,7 +3,7 @@
 cd "$(dirname "$0")/.." || exit 2
 P=$1
 for k in 1 2; do
-  n=$((k+4)); d=seeded/$P-$n
+  n=$((k+${SEEDBASE:-4})); d=seeded/$P-$n
   [ -d /tmp/seed-$P/out/$k ] || { echo "no out/$k"; continue; }
   mkdir -p $d && cp /tmp/seed-$P/out/$k/{patch.diff,demo.py,meta.json} $d/ 2>/dev/null
   echo "##### $P-$n"; tools/seedtest.sh $P-$n $P
